@@ -32,6 +32,30 @@ Bad(e) ==
             \cup T({R[i].c : i \in 1..Len(R)} # -1..300, "X.helper.driver")
             \cup T(\E i, j \in 1..Len(R) : R[i].valid /\ R[j].valid /\ R[i].c \in RegValid(e.proto) /\ R[j].c \in RegValid(e.proto)
                       /\ (R[i].prio < R[j].prio) # (RegRank(e.proto, R[i].c) < RegRank(e.proto, R[j].c)), "X.helper.registry.order")
+    [] e.ev = "Hdr" ->
+         \* three ways to the same header: all refuse fewer than 12 octets, all agree on 12 or more, the header writes back
+         LET short == Len(e.in) < 12 IN
+         T(\E i \in 1..3 : e.errs[i] # short, "X.helper.header")
+         \cup T(~short /\ (\E i \in 1..3 : e.f[i] # HdrFields(e.in)), "X.helper.header")
+         \cup T(~short /\ e.back # SubSeq(e.in, 1, 12), "X.helper.header.bytes")
+    [] e.ev = "DecId" ->
+         T(\E i \in 1..2 : e.strs[i] # Dec32(e.hi, e.lo) \/ e.nums[i] # <<e.hi, e.lo>>, "X.helper.decimal_id")
+    [] e.ev = "Hex" ->
+         T(e.w # HexOf(e["in"]) \/ e.r # HexOf(SubSeq(e["in"], e.skip + 1, Len(e["in"]))), "X.helper.hexstring")
+    [] e.ev = "CmdJson" ->
+         \* a named command goes there and back; anything else is written as unknown(n) and not read back
+         T(e.js # <<34>> \o e.name \o <<34>>, "X.helper.cmdjson")
+         \cup T(e.uerr # ~NamedCmd(e.hi, e.lo), "X.helper.cmdjson")
+         \cup T(~e.uerr /\ <<e.bhi, e.blo>> # <<e.hi, e.lo>>, "X.helper.cmdjson")
+    [] e.ev = "RespHdr" ->
+         \* Deliver_Resp 0x80000003, Active_Test_Resp 0x80000004, Exit_Resp 0x80000006 under the request's sequence number
+         T(\E i \in 1..3 : e.seqs[i] # <<e.hi, e.lo>> \/ ~e.resp[i], "X.helper.response_header")
+         \cup T(e.cmds # <<3, 4, 6>>, "X.helper.response_header")
+    [] e.ev = "OneTlv" ->
+         LET img == <<e.tag \div 256, (e.tag % 256), 0, Len(e.v)>> \o e.v IN
+         T(e.bytes[1] # img \/ e.bytes[2] # img, "X.helper.tlv")
+         \cup T(e.empty # <<e.tag = 0 /\ e.v = <<>>, e.tag = 0 /\ e.v = <<>>, TRUE>> \/ e.strempty # <<e.tag = 0 /\ e.v = <<>>, TRUE>>, "X.helper.tlv")
+    [] e.ev = "CanGsm" -> T(e.can # e.valid \/ e.can # (e.inv = <<>>), "X.helper.cangsm")
 
 TraceNext ==
   \/ /\ l <= Len(Trace)
